@@ -55,8 +55,16 @@ pub struct Binder<'a> {
     aliases: HashMap<String, Expr>,
     /// Table aliases in scope
     table_aliases: HashMap<String, String>,
-    /// CTE definitions (WITH clauses)
+    /// CTE definitions (WITH clauses) visible in the scope being bound
     ctes: HashMap<String, Arc<LogicalPlan>>,
+    /// Key under which references to each visible CTE are tagged
+    /// (`SubqueryAliasNode::cte_name`). It is the name itself unless another
+    /// WITH of the same statement already used that name: the physical
+    /// planner materializes ONE result per tag, so two definitions that share
+    /// a name must not share a tag.
+    cte_tags: HashMap<String, String>,
+    /// Every CTE name defined so far anywhere in the statement.
+    cte_names_seen: std::collections::HashSet<String>,
     /// Outer scope columns for correlated subqueries (name -> (type, relation))
     #[allow(dead_code)] // Reserved for correlated subquery type checking
     outer_scope: HashMap<String, (ArrowDataType, Option<String>)>,
@@ -129,6 +137,8 @@ impl<'a> Binder<'a> {
             aliases: HashMap::new(),
             table_aliases: HashMap::new(),
             ctes: HashMap::new(),
+            cte_tags: HashMap::new(),
+            cte_names_seen: std::collections::HashSet::new(),
             outer_scope: HashMap::new(),
             named_windows: HashMap::new(),
             allow_window: false,
@@ -147,6 +157,8 @@ impl<'a> Binder<'a> {
             aliases: HashMap::new(),
             table_aliases: HashMap::new(),
             ctes,
+            cte_tags: HashMap::new(),
+            cte_names_seen: std::collections::HashSet::new(),
             outer_scope,
             named_windows: HashMap::new(),
             allow_window: false,
@@ -186,6 +198,21 @@ impl<'a> Binder<'a> {
     }
 
     fn bind_query(&mut self, query: &ast::Query) -> Result<LogicalPlan> {
+        // A WITH clause opens a lexical scope: its names are visible in this
+        // query expression only, and an outer definition of the same name is
+        // visible again afterwards.
+        if query.with.is_none() {
+            return self.bind_query_in_scope(query);
+        }
+        let saved_ctes = self.ctes.clone();
+        let saved_tags = self.cte_tags.clone();
+        let result = self.bind_query_in_scope(query);
+        self.ctes = saved_ctes;
+        self.cte_tags = saved_tags;
+        result
+    }
+
+    fn bind_query_in_scope(&mut self, query: &ast::Query) -> Result<LogicalPlan> {
         // Process CTEs (WITH clause) first
         if let Some(ref with_clause) = query.with {
             self.bind_ctes(with_clause)?;
@@ -286,6 +313,13 @@ impl<'a> Binder<'a> {
             let cte_plan = self.bind_query(&cte.query)?;
 
             // Store the CTE with its alias
+            let tag = if self.cte_names_seen.insert(alias_name.clone()) {
+                alias_name.clone()
+            } else {
+                format!("{}#{}", alias_name, self.cte_names_seen.len())
+            };
+            self.cte_names_seen.insert(tag.clone());
+            self.cte_tags.insert(alias_name.clone(), tag);
             self.ctes.insert(alias_name.clone(), Arc::new(cte_plan));
         }
         Ok(())
@@ -1113,7 +1147,12 @@ impl<'a> Binder<'a> {
                         input: Arc::clone(cte_plan),
                         alias: alias_name.clone(),
                         schema: aliased_schema,
-                        cte_name: Some(table_name.clone()),
+                        cte_name: Some(
+                            self.cte_tags
+                                .get(&table_name)
+                                .cloned()
+                                .unwrap_or_else(|| table_name.clone()),
+                        ),
                     }));
                 }
 
